@@ -1,6 +1,199 @@
-import Asts.Spec.Reconcile
+import Asts.Proofs.L1_c_C12
 
-/-! # C12 — property theorems (under construction) -/
+/-! # C12 — status tells the truth
+
+The status the controller writes after a reconcile that ended `.ok` is, in the model (`runRc` in `Driver/Reconcile.lean`,
+`reconcileAndStatus` in `Model/Status.lean`), `completeRollingUpdate v (updateStatefulSet v cur upd pods f).1.status`.
+The four theorems below say that the monitors `C12bounds`, `C12gen`, `C12complete` of `Spec/Reconcile.lean` are true on it
+for EVERY set view, revision pair, pod list and fault plan (no bound on replicas, slots, pods or faults), and that a
+reconcile that issued no action returns exactly the census of the snapshot. Lemmas: `Asts/Proofs/L1_c_*.lean`. -/
 namespace Asts.C12
+open Asts.L1c
+
+/-- the status the controller writes after this reconcile -/
+def written (v : SetView) (cur upd : String) (pods : List Pod) (f : Faults) : Status :=
+  completeRollingUpdate v (updateStatefulSet v cur upd pods f).1.status
+
+/-! ## an independently written counting specification -/
+
+/-- how many pods satisfy `q` (plain recursion; does not mention `census`, `filter` or `countP`) -/
+def countIf (q : Pod → Prop) [DecidablePred q] : List Pod → Int
+  | [] => 0
+  | p :: ps => (if q p then 1 else 0) + countIf q ps
+
+/-- a pod counts as ready when it is Running and its Ready condition is true -/
+def IsReady (p : Pod) : Prop := p.phase = .running ∧ p.ready = true
+/-- a pod counts for revision `x` when the API server has accepted it, it is not being deleted and carries label `x` -/
+def IsLiveAt (x : String) (p : Pod) : Prop := p.phase ≠ .none ∧ p.terminating = false ∧ p.rev = x
+
+instance : DecidablePred IsReady := fun p => by unfold IsReady; infer_instance
+instance (x : String) : DecidablePred (IsLiveAt x) := fun p => by unfold IsLiveAt; infer_instance
+
+/-- exact census of a snapshot, written without the model's `census` -/
+structure ExactCensus (cRev uRev : String) (pods : List Pod) (st : Status) : Prop where
+  total   : st.replicas = pods.length
+  ready   : st.ready = countIf IsReady pods
+  current : st.current = countIf (IsLiveAt cRev) pods
+  updated : st.updated = countIf (IsLiveAt uRev) pods
+
+private theorem countIf_eq_filter (q : Pod → Prop) [DecidablePred q] (b : Pod → Bool) (hb : ∀ p, b p = true ↔ q p)
+    (l : List Pod) : countIf q l = ((l.filter b).length : Int) := by
+  induction l with
+  | nil => rfl
+  | cons p ps ih =>
+    unfold countIf
+    rw [ih, List.filter_cons]
+    by_cases hq : q p
+    · have : b p = true := (hb p).2 hq
+      simp [hq, this]; omega
+    · have : ¬ b p = true := fun h => hq ((hb p).1 h)
+      simp [hq, this]
+
+/-- the model's `census` meets the independent specification -/
+theorem census_exact (cur upd : String) (pods : List Pod) : ExactCensus cur upd pods (census cur upd pods) := by
+  refine ⟨rfl, ?_, ?_, ?_⟩
+  · rw [countIf_eq_filter IsReady Pod.runningAndReady (by intro p; simp [IsReady, Pod.runningAndReady])]; rfl
+  · rw [countIf_eq_filter (IsLiveAt cur) (fun p => p.created && !p.terminating && p.rev == cur)
+      (by intro p; simp [IsLiveAt, Pod.created, and_assoc])]; rfl
+  · rw [countIf_eq_filter (IsLiveAt upd) (fun p => p.created && !p.terminating && p.rev == upd)
+      (by intro p; simp [IsLiveAt, Pod.created, and_assoc])]; rfl
+
+/-! ## bounds -/
+
+/-- **C12 (bounds).** If every pod object of the snapshot carries a phase (the precondition under which `monitorRc`
+    evaluates `C12.bounds`; the API server stamps `Pending` on create), every status written after a reconcile that ended
+    `.ok` has `0 ≤ ready, current, updated ≤ replicas` — for every spec, pod list and fault plan. -/
+theorem C12_bounds (v : SetView) (cur upd : String) (pods : List Pod) (f : Faults)
+    (hcr : ∀ p ∈ pods, p.created = true) (hok : (updateStatefulSet v cur upd pods f).2 = .ok) :
+    C12bounds (written v cur upd pods f) = true := by
+  rw [C12bounds_iff]
+  apply completeRollingUpdate_bounded
+  exact updateStatefulSet_bounded v cur upd pods f hcr _ (Prod.ext rfl hok)
+
+/-- `Prop` reading of `C12_bounds`. -/
+theorem C12_bounds_prop (v : SetView) (cur upd : String) (pods : List Pod) (f : Faults)
+    (hcr : ∀ p ∈ pods, p.created = true) (hok : (updateStatefulSet v cur upd pods f).2 = .ok) :
+    let w := written v cur upd pods f
+    0 ≤ w.ready ∧ w.ready ≤ w.replicas ∧ 0 ≤ w.current ∧ w.current ≤ w.replicas ∧ 0 ≤ w.updated ∧ w.updated ≤ w.replicas :=
+  (C12bounds_iff _).1 (C12_bounds v cur upd pods f hcr hok)
+
+/-- The status *returned* (before `completeRollingUpdate`) is within the same bounds. -/
+theorem C12_bounds_returned (v : SetView) (cur upd : String) (pods : List Pod) (f : Faults)
+    (hcr : ∀ p ∈ pods, p.created = true) (hok : (updateStatefulSet v cur upd pods f).2 = .ok) :
+    C12bounds (updateStatefulSet v cur upd pods f).1.status = true :=
+  (C12bounds_iff _).2 (updateStatefulSet_bounded v cur upd pods f hcr _ (Prod.ext rfl hok))
+
+/-! ## generation -/
+
+/-- **C12 (generation).** The written status carries the generation that was reconciled, and is therefore not lower than
+    any stored value that is itself not ahead of the object's generation — whatever `stored` is. -/
+theorem C12_generation (v : SetView) (cur upd : String) (pods : List Pod) (f : Faults) (stored : Status)
+    (hok : (updateStatefulSet v cur upd pods f).2 = .ok) :
+    C12gen v stored (written v cur upd pods f) = true :=
+  c12gen_of_post v cur upd pods _ stored (updateStatefulSet_post v cur upd pods f _ (Prod.ext rfl hok))
+
+/-- `Prop` reading of `C12_generation`. -/
+theorem C12_generation_prop (v : SetView) (cur upd : String) (pods : List Pod) (f : Faults) (stored : Status)
+    (hok : (updateStatefulSet v cur upd pods f).2 = .ok) :
+    (written v cur upd pods f).observedGen = v.generation ∧
+    (stored.observedGen ≤ v.generation → stored.observedGen ≤ (written v cur upd pods f).observedGen) := by
+  have h := C12_generation v cur upd pods f stored hok
+  simp only [C12gen, Bool.and_eq_true, beq_iff_eq] at h
+  refine ⟨h.1, fun hle => ?_⟩
+  have := h.2
+  simp only [hle, if_true, decide_eq_true_eq] at this
+  exact this
+
+/-! ## completion -/
+
+/-- **C12 (completion).** The written `currentRevision` is either the one the reconcile was given, or it is the update
+    revision and then every pod of the snapshot was at the update revision, Running, Ready and not terminating, and the
+    reconcile created and deleted nothing. -/
+theorem C12_completion (v : SetView) (cur upd : String) (pods : List Pod) (f : Faults)
+    (hok : (updateStatefulSet v cur upd pods f).2 = .ok) :
+    C12complete cur upd pods (observe (updateStatefulSet v cur upd pods f).1.acts) (written v cur upd pods f) = true :=
+  c12complete_of_post v cur upd pods _ (updateStatefulSet_post v cur upd pods f _ (Prod.ext rfl hok))
+
+/-- `Prop` reading of `C12_completion`. -/
+theorem C12_completion_prop (v : SetView) (cur upd : String) (pods : List Pod) (f : Faults)
+    (hok : (updateStatefulSet v cur upd pods f).2 = .ok)
+    (hchg : (written v cur upd pods f).currentRev ≠ cur) :
+    (written v cur upd pods f).currentRev = upd ∧
+    (∀ p ∈ pods, p.rev = upd ∧ p.healthy = true) ∧
+    (∀ a ∈ observe (updateStatefulSet v cur upd pods f).1.acts, a.isCreate = false ∧ a.isDelete = false) := by
+  have h := C12_completion v cur upd pods f hok
+  simp only [C12complete, Bool.or_eq_true, Bool.and_eq_true, beq_iff_eq, List.all_eq_true, Bool.not_eq_true',
+    List.any_eq_false, Bool.or_eq_true, not_or, Bool.not_eq_true] at h
+  rcases h with h | h
+  · exact absurd h hchg
+  · exact ⟨h.1.1, h.1.2, h.2⟩
+
+/-! ## census at a fixed point -/
+
+/-- **C12 (census at a quiescent point), in terms of the model's `census`.** A reconcile that ended `.ok` without issuing
+    any action returns exactly the census of its snapshot: total, ready, at current revision, at update revision. -/
+theorem C12_census_fixpoint (v : SetView) (cur upd : String) (pods : List Pod) (f : Faults)
+    (hok : (updateStatefulSet v cur upd pods f).2 = .ok) (hq : (updateStatefulSet v cur upd pods f).1.acts = []) :
+    let st := (updateStatefulSet v cur upd pods f).1.status
+    st.replicas = (census cur upd pods).replicas ∧ st.ready = (census cur upd pods).ready ∧
+    st.current = (census cur upd pods).current ∧ st.updated = (census cur upd pods).updated := by
+  have := census_of_post v cur upd pods _ (updateStatefulSet_post v cur upd pods f _ (Prod.ext rfl hok)) hq
+  simp only [this]
+  exact ⟨rfl, rfl, rfl, rfl⟩
+
+/-- **The same against the independent counting specification.** -/
+theorem C12_census_fixpoint_spec (v : SetView) (cur upd : String) (pods : List Pod) (f : Faults)
+    (hok : (updateStatefulSet v cur upd pods f).2 = .ok) (hq : (updateStatefulSet v cur upd pods f).1.acts = []) :
+    ExactCensus cur upd pods (updateStatefulSet v cur upd pods f).1.status := by
+  obtain ⟨h1, h2, h3, h4⟩ := C12_census_fixpoint v cur upd pods f hok hq
+  have hc := census_exact cur upd pods
+  exact ⟨h1.trans hc.total, h2.trans hc.ready, h3.trans hc.current, h4.trans hc.updated⟩
+
+/-- **What is written at such a point** is an exact census with respect to the revision names it carries: if the
+    completion rule fires, `currentRevision` becomes the update revision and `currentReplicas` the number of live pods
+    at it. -/
+theorem C12_census_written (v : SetView) (cur upd : String) (pods : List Pod) (f : Faults)
+    (hok : (updateStatefulSet v cur upd pods f).2 = .ok) (hq : (updateStatefulSet v cur upd pods f).1.acts = []) :
+    ExactCensus (written v cur upd pods f).currentRev (written v cur upd pods f).updateRev pods (written v cur upd pods f) := by
+  have hst := census_of_post v cur upd pods _ (updateStatefulSet_post v cur upd pods f _ (Prod.ext rfl hok)) hq
+  have hc := census_exact cur upd pods
+  unfold written completeRollingUpdate
+  rw [hst]
+  split_ifs
+  · exact ⟨hc.total, hc.ready, hc.updated, hc.updated⟩
+  · exact ⟨hc.total, hc.ready, hc.current, hc.updated⟩
+
+/-! ## non-vacuity -/
+
+/-- a snapshot in the middle of a rolling update with a Failed pod, a terminating pod and a condemned pod -/
+def exPods : List Pod :=
+  [ { id := 0, ord := 0, phase := .running, ready := true, terminating := false, rev := "a", idOk := true, stOk := true },
+    { id := 1, ord := 1, phase := .failed, ready := false, terminating := true, rev := "a", idOk := true, stOk := true },
+    { id := 2, ord := 2, phase := .running, ready := true, terminating := false, rev := "b", idOk := true, stOk := true },
+    { id := 3, ord := 5, phase := .running, ready := true, terminating := false, rev := "c", idOk := true, stOk := true } ]
+
+def exView : SetView :=
+  { replicas := some 3, slots := [], parallel := true, strat := .rolling, ru := some (some 0), deleting := false,
+    generation := 7, stCurrentReplicas := 2 }
+
+example : (∀ p ∈ exPods, p.created = true) ∧ (updateStatefulSet exView "a" "b" exPods []).2 = .ok ∧
+    (updateStatefulSet exView "a" "b" exPods []).1.acts ≠ [] := by decide
+
+/-- a quiescent snapshot (three healthy pods at the update revision): the hypotheses of the census theorems are
+    satisfiable, and here the completion rule fires -/
+def exQuiet : List Pod :=
+  [ { id := 0, ord := 0, phase := .running, ready := true, terminating := false, rev := "b", idOk := true, stOk := true },
+    { id := 1, ord := 1, phase := .running, ready := true, terminating := false, rev := "b", idOk := true, stOk := true },
+    { id := 2, ord := 2, phase := .running, ready := true, terminating := false, rev := "b", idOk := true, stOk := true } ]
+
+example : (updateStatefulSet exView "a" "b" exQuiet []).2 = .ok ∧ (updateStatefulSet exView "a" "b" exQuiet []).1.acts = [] ∧
+    (written exView "a" "b" exQuiet []).currentRev = "b" ∧ (written exView "a" "b" exQuiet []).current = 3 := by decide
+
+/-- the hypothesis of `C12_bounds` is needed: a pod object without a phase (never produced by an API server) outside the
+    desired set is not counted by the census but is deleted, and `currentReplicas` goes to -1 -/
+example :
+    C12bounds (written { exView with replicas := some 0 } "a" "b"
+      [{ id := 0, ord := 5, phase := .none, ready := false, terminating := false, rev := "a", idOk := true, stOk := true }] [])
+    = false := by decide
 
 end Asts.C12
